@@ -418,9 +418,9 @@ def classify(A, d):
         e["class"] = "rlimit"
     if prim:
         e["line"] = prim["line_start"]
-    # function context: any span inside an extracted fn
+    # function context: the primary span first (call site / failing statement), then any span inside an extracted fn
     fq = None
-    for s in spans:
+    for s in ([prim] if prim else []) + list(spans):
         for f in A.fns:
             if f["start"] <= s["line_start"] <= f["end"]:
                 fq = f["qual"]
